@@ -28,6 +28,14 @@ fn main() {
             eprintln!("{}", msg);
         }
     }));
+    // debug-build frames of the generated dispatch functions are large: run on a big stack
+    let h = std::thread::Builder::new().stack_size(2usize << 30).spawn(move || dispatch(args)).expect("HARNESS: spawn");
+    if h.join().is_err() {
+        std::process::exit(101);
+    }
+}
+
+fn dispatch(args: Vec<String>) {
     match args[1].as_str() {
         "script" => run_script(&args[2], &args[3], flag(&args, "--from").unwrap_or(0), flag(&args, "--count").unwrap_or(usize::MAX)),
         "views" => run_each(&args[2], &args[3], flag(&args, "--from").unwrap_or(0), flag(&args, "--count").unwrap_or(usize::MAX), views::run_case),
